@@ -127,7 +127,11 @@ func invoke(recv any, helper avfs.VFS, idm avfs.IdentityMgr, o opDesc) (out outc
 				bufs = append(bufs, b)
 				v = reflect.ValueOf(b)
 			case "time":
-				v = reflect.ValueOf(fsx.FixedTime.Add(time.Duration(a.I) * time.Second))
+				if a.S == "zero" {
+					v = reflect.ValueOf(time.Time{})
+				} else {
+					v = reflect.ValueOf(fsx.FixedTime.Add(time.Duration(a.I) * time.Second))
+				}
 			case "finfo":
 				fi, err := helper.Lstat(a.S)
 				if err != nil {
